@@ -158,7 +158,7 @@ pub mod look {
     pub fn word_sides<T: Text + ?Sized>(t: &T, at: usize) -> (bool, bool) {
         let w = word_class();
         let before = at > 0 && {
-            let st = crate::prev_codepoint_ix(t, at);
+            let st = crate::symtext::prev_boundary(t, at);
             t.class_contains(st, &w)
         };
         let after = at < t.len() && t.class_contains(at, &w);
@@ -228,7 +228,7 @@ type Caps = Vec<Option<usize>>;
 type K<'a> = &'a mut dyn FnMut(usize, &mut Caps) -> bool;
 
 pub fn char_width<T: Text + ?Sized>(t: &T, ix: usize) -> usize {
-    crate::codepoint_len(t.as_bytes()[ix])
+    crate::symtext::cp_len(t.as_bytes()[ix])
 }
 
 fn m<T: Text + ?Sized>(h: &H, t: &T, i: usize, caps: &mut Caps, k: K<'_>) -> bool {
